@@ -135,9 +135,9 @@ MustReject(c, data, n, finishing) ==
 MayReject(c, data, emptyWrites) ==
     \/ IsHead /\ NoBodyStatus(c.status) /\ data # <<>>
     \/ NoBodyStatus(c.status) /\ data = <<>> /\ emptyWrites      \* write(b"") calls before a 204/304 finish: zero bytes, still "a body"?
-(* an explicit Content-Length that disagrees with the (empty) body of a 204/304 response: the
-   message is complete without it; the call may still report the inconsistency by raising *)
-MayRaiseAfter(c, n) == ~IsHead /\ NoBodyStatus(c.status) /\ c.ecl # NoCL /\ n # c.ecl
+(* An explicit Content-Length on a 204/304 response (also on the 304 substituted for an ETag match) is
+   only a header: the message is complete without a body, the call is not rejected and must not raise
+   (an exception there aborts a kept-alive connection for a well-formed response). *)
 RejChoices(c, data, n, finishing, emptyWrites) ==
     IF MustReject(c, data, n, finishing) THEN {TRUE}
     ELSE IF MayReject(c, data, emptyWrites) THEN {TRUE, FALSE} ELSE {FALSE}
@@ -170,7 +170,7 @@ DoFinish(bs, okRun) ==
                  /\ UNCHANGED <<buf, bufw, sent, hw, fin, com>>
             ELSE /\ fin' = TRUE /\ hw' = TRUE /\ com' = c /\ sent' = s2 /\ buf' = <<>> /\ bufw' = 0
                  /\ outcome' = "complete"
-                 /\ run' \in (IF MayRaiseAfter(c, Len(s2)) THEN {okRun, "raised"} ELSE {okRun})
+                 /\ run' = okRun
 
 FinishB(bs) ==
     /\ Running
@@ -193,7 +193,7 @@ ASetStatus == \E s \in Statuses : LSetStatus(s)
 ASetHeader == \E v \in HdrVals : LSetHeader(N_x_a, Digit(v))
 ASetLength == \E v \in ClVals : LSetHeader(N_content_length, Digit(v))
 AAddHeader == \E v \in HdrVals : LAddHeader(N_x_a, Digit(v))
-AClearHeader == LClearHeader(N_x_a)
+AClearHeader == HdrVals # {} /\ LClearHeader(N_x_a)
 AWrite == \E k \in ChunkIds : WriteB(Chunk(k))
 AFinish == \E k \in ChunkIds \cup {0} : FinishB(Chunk(k))
 Next == ASetStatus \/ ASetHeader \/ ASetLength \/ AAddHeader \/ AClearHeader \/ AWrite \/ Flush \/ AFinish \/ End
